@@ -7,7 +7,8 @@ R2 same table         : the renderer is evaluated to a canonical table term (sfc
                         tab-joined column sequence, then one line per i in range(0, min length) holding
                         `format % (self[v][i],)` for v in the same sequence; compared up to bound-variable names.
 R3 horizon+1 rows     : the solve loop runs range(1, MaxTime+1) and every partition is appended once per step
-                        (same formulation as C10.R1 / C10.R2)."""
+                        (same formulation as C10.R1 / C10.R2).
+R4 reads do not write : no accessor or renderer of the results mutates a stored series (alias analysis shared with C16.R2)."""
 import ast
 
 from .. import cfg as cfgmod
@@ -299,6 +300,15 @@ def run(prog, check):
     sa = solver_function(prog, 'solve_all')
     check.saw(sa)
     check_bounds(check, sa, single_assign_subst(sa.node), rule='C19.R3')
+    # ---- R4: reading the results does not change them ---------------------------------------------------------------
+    # the table is rendered from the stored series: an accessor or renderer that mutates a stored list (a window cut with pop / del
+    # on the list itself) shortens or shifts the columns of every table rendered afterwards (rule shared with C16.R2)
+    from .C16 import check_accessor, Summaries
+    summ = Summaries(prog)
+    for role in ('series', 'renderer', 'helper'):
+        for f_ in acc[role]:
+            check_accessor(prog, check, f_, role, summ, pid_rules=(None, 'C19.R4'))
+    check.floor('C19.R4', 1)
     check.floor('C19.R1', 3)
     check.floor('C19.R2', 7)
     check.floor('C19.R3', 1)
